@@ -14,6 +14,8 @@ from . import c10, c07
 def run(ctx):
     from .configtime import derived_values as _derived
     _derived(ctx, 'C17.R4', ('Recipe', 'RecipeStep', 'Container', 'Plate', 'PlateSlicer', 'Slicer'))
+    from .configtime import decisions_not_taken_on_display_values as _coarse
+    _coarse(ctx, 'C17.R4', ('Container', 'Plate', 'PlateSlicer', 'Recipe', 'RecipeStep'))
     # per-well amounts gathered with numpy.vectorize need an explicit result type: without it the type of the first
     # well decides, and an empty first well (int 0) truncates every later amount to whole storage units
     from .c15 import t5 as _vectorize_dtype
